@@ -447,8 +447,12 @@ def quantified_rules(rep, prog):
                 undecided = "further condition %s on the path to `return True`" % pred_fmt(npred(*rest[0]))[:80]
             ok = both and distinct and test_ok
             why = "witnesses from n(i) & pa(j): %s; distinct: %s; non-adjacency test k not in adj(l): %s" % (both, distinct, test_ok)
+    shape3 = len(trues) == 1 and len(falses) == 1 and len(rets) == 2 and not falses[0].path
     if undecided and ok:
         rep.unk("RULES.rule_3", fwhere(f), "rule_3: " + undecided)
+    elif not shape3 and any(not is_const(r_.value) for r_ in rets):
+        # the rule computes its answer as an expression (a vectorised test, a set comparison) instead of searching for witnesses: not read
+        rep.unk("RULES.rule_3", fwhere(f), "rule_3 is not written as a search that returns True at a witness and False at the end: not read")
     else:
         rep.check("RULES.rule_3", ok, fwhere(f, trues[0].node if trues else None), "rule_3(i, j, A) <=> two distinct non-adjacent k, l in neighbors(i) & pa(j)",
                   "rule_3 deviates from its definition: " + why)
@@ -511,8 +515,11 @@ def quantified_rules(rep, prog):
             elif not unions:
                 undecided = undecided or "the union of the parents of Ks is not spelled as reduce(lambda acc, k: acc | pa(k, A), Ks, set())"
                 ok = True
+    shape4 = len(trues) == 1 and len(falses) == 1 and len(rets) == 2 and not falses[0].path
     if undecided and ok:
         rep.unk("RULES.rule_4", fwhere(f), "rule_4: " + undecided)
+    elif not shape4 and any(not is_const(r_.value) for r_ in rets):
+        rep.unk("RULES.rule_4", fwhere(f), "rule_4 is not written as a search that returns True at a witness and False at the end: not read")
     else:
         rep.check("RULES.rule_4", ok, fwhere(f, trues[0].node if trues else None), "rule_4(i, j, A) <=> some h in neighbors(i), parent of some k in pa(j) & neighbors(i), with h not adjacent to j",
                   "rule_4 deviates from its definition: " + why)
